@@ -34,10 +34,10 @@ def setup():
     CR.setup_pipeline()
 
 
-def gen(c, k, labels):
+def gen(c, k, labels, nkinds=3):
     items = []
     for i in range(k):
-        kind = c.choose(3)  # 0 ref, 1 def, 2 def in quote
+        kind = c.choose(nkinds)  # 0 ref, 1 def, 2 def in quote
         items.append((kind, c.pick(labels)))
     sort = bool(c.choose(2))
     trans = bool(c.choose(2))
@@ -169,7 +169,7 @@ def check(doc, warn, spec):
     return None
 
 
-def make(eng, k, labels):
+def make(eng, k, labels, nkinds=3):
     setup()
     c = CR.Choice(eng)
     state = {}
@@ -177,7 +177,7 @@ def make(eng, k, labels):
 
     def body():
         c.reset()
-        text, spec = gen(c, k, labels)
+        text, spec = gen(c, k, labels, nkinds)
         state["text"], state["spec"] = text, spec
         try:
             doc, warn = CR.publish(text, {"myst_footnote_sort": spec["sort"], "myst_footnote_transition": spec["trans"]})
@@ -202,6 +202,10 @@ def families(tier, seed):
     for k, labels in ([(2, LABELS), (3, ["a", "b", "1"]), (4, ["a", "b"])] if q else [(3, LABELS), (4, ["a", "b", "2"]), (5, ["a", "b"]), (4, LABELS)]):
         F.append(Family("arr/K%d-L%d" % (k, len(labels)), make, "all arrangements of %d items (reference / definition / definition in a block quote) over labels %r x footnote_sort x footnote_transition" % (k, labels),
                         args=dict(k=k, labels=labels), nontrivial=("linked" if k >= 3 else None), max_forks=400000, required=(k <= 4 and len(labels) <= 3 or k <= 3)))
+    F.append(Family("arr/K5-L2-flat", make, "all arrangements of 5 items (reference / definition) over labels ['a', 'b'] x both settings (repeated references between other labels' first references)",
+                    args=dict(k=5, labels=["a", "b"], nkinds=2), nontrivial="linked", max_forks=400000))
+    if not q:
+        F.append(Family("arr/K6-L2-flat", make, "6 items, labels a/b, no quotes", args=dict(k=6, labels=["a", "b"], nkinds=2), nontrivial="linked", max_forks=400000, required=False))
     return F
 
 
